@@ -1,4 +1,5 @@
 import MiniconfVerif.Lemmas.GenTieTranscode
+import MiniconfVerif.Lemmas.GenTieKeys
 import MiniconfVerif.Lemmas.GenTieText
 import MiniconfVerif.Lemmas.Factor
 import MiniconfVerif.Lemmas.TextKeys
@@ -175,5 +176,40 @@ theorem source_transcode_callbacks_are_model (buf : Str) (cap : Nat) (a : CbArg)
           t = .json (JsonPath.callback (buf, cap) a.index a.name a.len).1.1 cap
       | none => (JsonPath.callback (buf, cap) a.index a.name a.len).2 = .error ()) :=
   ⟨fun sep => path_callback_tie sep buf cap a, jsonpath_callback_tie buf cap a⟩
+
+open MiniconfVerif.Gen MiniconfVerif.Gen.Core MiniconfVerif.Gen.Keys MiniconfVerif.GenTie in
+/-- The `Keys` implementations **as translated from key.rs / iter.rs / packed.rs** are the model's key sources: for every
+state, every lookup with at least one child, `KeysIter::next` over any item list and `Packed::next` return the model's index
+and leave the model's successor state (same error otherwise; a `TooShort` leaves the state as it was; `Packed` panics
+exactly where the model marks a panic); `Chain<T, U>` and `Consume<T>` do so for any components that do (so every nesting
+of these types does); `finalize` likewise; and the traversal callback of `Transcode for Packed` panics / fails / succeeds
+exactly as the model's `Target.cbPanics` / `Target.cb`, leaving the model's word. -/
+theorem source_keys_are_model :
+    (KeysRel (KeysIter.next keyFindG) KeySrc.list ∧ FinRel (KeysIter.finalize (κ := Key)) (fun l => .list (l.map id))) ∧
+    (KeysRel Gen.Keys.Packed.next KeySrc.packed ∧ FinRel Gen.Keys.Packed.finalize KeySrc.packed) ∧
+    (∀ (α β : Type) (nextA : α → KeyLookup → P (α × Except Traversal Nat))
+        (nextB : β → KeyLookup → P (β × Except Traversal Nat)) (ιA : α → KeySrc) (ιB : β → KeySrc),
+      KeysRel nextA ιA → KeysRel nextB ιB → KeysRel (Chain.next nextA nextB) (fun s => .chain (ιA s.1) (ιB s.2))) ∧
+    (∀ (α β : Type) (finA : α → α × Except Traversal Unit) (finB : β → β × Except Traversal Unit)
+        (ιA : α → KeySrc) (ιB : β → KeySrc),
+      FinRel finA ιA → FinRel finB ιB → FinRel (Chain.finalize finA finB) (fun s => .chain (ιA s.1) (ιB s.2))) ∧
+    (∀ (α : Type) (nextA : α → KeyLookup → P (α × Except Traversal Nat)) (ι : α → KeySrc),
+      KeysRel nextA ι → KeysRel (Consume.next nextA) (fun s => .consume (ι s)) ∧
+        FinRel (Consume.finalize (α := α)) (fun s => .consume (ι s))) ∧
+    (∀ (w : BitVec 64) (a : CbArg), 0 < a.len →
+      if (Target.packed w).cbPanics a then ∃ m, Gen.Keys.Packed.callback w a.index a.name a.len = .panic m
+      else match Target.cb (.packed w) a with
+        | some t => ∃ w', Gen.Keys.Packed.callback w a.index a.name a.len = .val (w', .ok ()) ∧ t = .packed w'
+        | none => ∃ w', Gen.Keys.Packed.callback w a.index a.name a.len = .val (w', .error ())) :=
+  ⟨⟨keysIter_next_tie, keysIter_finalize_tie id⟩, ⟨packed_next_tie, packed_finalize_tie⟩,
+   fun _ _ nextA nextB ιA ιB hA hB => chain_next_tie nextA nextB ιA ιB hA hB,
+   fun _ _ finA finB ιA ιB hA hB => chain_finalize_tie finA finB ιA ιB hA hB,
+   fun _ nextA ι hA => ⟨consume_next_tie nextA ι hA, consume_finalize_tie ι⟩,
+   packed_callback_tie⟩
+
+/-- non-vacuity: the relation is about real steps — a chained source over a path segment and a packed word -/
+example : (match (KeySrc.chain (.list [.int 1]) (.packed Gen.Packed.EMPTY)).next (.numbered 3) with
+    | .ok (1, .chain (.list []) (.packed _)) => true
+    | _ => false) = true := by decide +kernel
 
 end MiniconfVerif.C04
